@@ -386,6 +386,18 @@ func (p *Prop[C]) Eval(tb TB, c C) Outcome {
 			mu.Lock()
 			survey[o.Signature]++
 			if survey[o.Signature] == 1 {
+				if d := os.Getenv("VERIF_SURVEY_DIR"); d != "" {
+					name := strings.Map(func(r rune) rune {
+						if r >= 'a' && r <= 'z' || r >= 'A' && r <= 'Z' || r >= '0' && r <= '9' || r == '-' || r == '.' {
+							return r
+						}
+						return '_'
+					}, o.Signature)
+					if len(name) > 100 {
+						name = name[:100]
+					}
+					writeReplay(filepath.Join(d, propID+"-"+name+".json"), caseJSON, &o, "survey witness (not shrunk)")
+				}
 				fmt.Fprintf(os.Stderr, "SURVEY %s\n  %s\n  case=%s\n", o.Signature, trunc(strings.ReplaceAll(o.Violation, "\n", "\n  "), 1500), trunc(string(caseJSON), 1500))
 			}
 			mu.Unlock()
